@@ -42,6 +42,10 @@ var c07Mutants = []Mutant{
 		Edits: []Edit{{File: "channel/read.go", Old: "\t\tif err != nil {\n\t\t\tselect {\n\t\t\tcase <-c.done:", New: "\t\tif err != nil {\n\t\t\tif errors.Is(err, io.EOF) {\n\t\t\t\treturn\n\t\t\t}\n\n\t\t\tselect {\n\t\t\tcase <-c.done:"}}},
 	{ID: "C07-close-nils-message-store", Desc: "NETCONF Close drops the reply store before stopping its reader", Rule: "C07/M",
 		Edits: []Edit{{File: "driver/netconf/driver.go", Old: "\td.done <- true\n\n\terr := d.Channel.Close()", New: "\td.messagesLock.Lock()\n\td.messages = nil\n\td.messagesLock.Unlock()\n\n\td.done <- true\n\n\terr := d.Channel.Close()"}}},
+	{ID: "C07-stop-request-withdrawn", Desc: "Close helper gives up offering done after the ops timeout", Rule: "C07/K6",
+		Edits: []Edit{{File: "channel/channel.go", Old: "\t\t\tc.done <- struct{}{}\n", New: "\t\t\tselect {\n\t\t\tcase c.done <- struct{}{}:\n\t\t\tcase <-time.After(c.TimeoutOps):\n\t\t\t}\n"}}},
+	{ID: "C07-read-lock-leaked-on-error", Desc: "Transport.read keeps the read lock when the implementation read fails", Rule: "C07/lock-paired",
+		Edits: []Edit{{File: "transport/transport.go", Old: "\tt.implLock.Lock()\n\tdefer t.implLock.Unlock()\n\n\treturn t.Impl.Read(n)", New: "\tt.implLock.Lock()\n\n\tb, err := t.Impl.Read(n)\n\tif err != nil {\n\t\treturn nil, err\n\t}\n\n\tt.implLock.Unlock()\n\n\treturn b, nil"}}},
 	{ID: "C07-close-skips-transport", Desc: "Channel.Close returns early when the reader already exited", Rule: "C07/close-reaches-transport",
 		Edits: []Edit{{File: "channel/channel.go", Old: "\t} else {\n\t\tclose(ch)\n\t}\n", New: "\t} else {\n\t\tclose(ch)\n\n\t\treturn nil\n\t}\n"}}},
 	{ID: "C07-new-shared-counter", Desc: "reader counts bytes in a plain field read by an API method", Rule: "C07/L",
@@ -192,9 +196,10 @@ func runC07(c *Ctx, r *Report) {
 	r.Rule("C07/K3", "no blocking send/receive on an unbuffered struct-field channel on the API thread outside a select with an alternative", 1)
 	r.Rule("C07/K4", "a long-lived reader goroutine sends on an unbuffered struct-field channel only inside a select that also waits on its done channel", 2)
 	r.Rule("C07/K5", "a worker's send on a local unbuffered channel is always received: the spawner receives unconditionally and as often as the worker sends, or the send is in a select with an alternative", 6)
-	r.Rule("C07/K6", "the channel reader polls done after a failed transport read, before forwarding the error and before returning", 2)
+	r.Rule("C07/K6", "the channel reader polls done after a failed transport read, before forwarding the error and before returning; the closer keeps its stop request pending", 3)
 	r.Rule("C07/L", "every struct field accessed by two thread classes with a post-start write is protected by a common must-held lock (or is a channel/sync value)", 8)
 	r.Rule("C07/M", "a map field a reader goroutine inserts into is never assigned anything but a fresh map once that goroutine may run", 2)
+	r.Rule("C07/lock-paired", "every Lock/RLock of a library mutex is followed on all paths to the return by its Unlock/RUnlock or a deferred one", 8)
 	r.Rule("C07/impl-close-all", "Close of each built-in transport releases every closable resource it holds (or finds it nil) before any return", 3)
 	r.Rule("C07/close-reaches-transport", "every return of Channel.Close is preceded by Transport.Close; the timeout edge is forced; the forced path takes no read lock; reads hold the read lock; every driver Close reaches Channel.Close", 6)
 
@@ -207,6 +212,7 @@ func runC07(c *Ctx, r *Report) {
 	checkDonePoll(c, r, cl)
 	checkLockset(c, r, cl, "C07/L", nil)
 	checkReaderMaps(c, r, cl)
+	checkLockPaired(c, r)
 	checkCloseReachesTransport(c, r)
 	checkImplCloseAll(c, r)
 	r.Extra["api_roots"] = len(cl.apiRoots)
@@ -640,6 +646,30 @@ func checkDonePoll(c *Ctx, r *Report, cl *classes) {
 	}
 	if n == 0 {
 		r.OK("C07/K6", shortFn(fn)+" forward", c.Pos(fn.Pos()), "the reader does not send on Errs")
+	}
+	// the closer's stop request stays on offer until the reader takes it: the poll above can only protect the
+	// reader from forwarding onto the closed Errs if the offer is still pending when the read finally comes back
+	chClose := c.LookupFunc("channel", "Channel", "Close")
+	if chClose == nil {
+		r.Anchor("C07/K6", "(*channel.Channel).Close")
+	} else {
+		nOffer := 0
+		for _, f := range append([]*ssa.Function{chClose}, AnonFuncsDeep(chClose)...) {
+			for _, op := range chanOpsOf(f) {
+				if op.Field != doneF || (op.Kind != "send" && op.Kind != "select-send") {
+					continue
+				}
+				nOffer++
+				if op.Kind == "select-send" && op.SelectHasOther {
+					r.Bad("C07/K6", "Channel.Close stop request", c.Pos(op.Instr.Pos()), "the closer's send on done sits in a select with another case: once that case wins the request is withdrawn, and a reader whose blocked read comes back afterwards with a non-EOF error finds no done to poll and forwards the error onto the Errs channel that Close has already closed (panic: send on closed channel, after Close returned)")
+				} else {
+					r.OK("C07/K6", "Channel.Close stop request", c.Pos(op.Instr.Pos()), "an unconditional send: it stays pending until the reader takes it")
+				}
+			}
+		}
+		if nOffer == 0 {
+			r.Unk("C07/K6", "Channel.Close stop request", c.Pos(chClose.Pos()), "Channel.Close does not send on the reader's done channel")
+		}
 	}
 	// the reader never leaves after a transport read without having polled done: the closer's request
 	// (a goroutine parked in `done <- ...` while the reader sat in a blocking read) is only ever received here
